@@ -3,11 +3,11 @@
   inverse transform keep reading the same parameters. Model: Model/TransformState.lean (shared with
   C09); helper lemmas: Proofs/TransformStateShare.lean.
 
-  OBLIGATIONS: C07_shared_params_partial C07_shared_params_refuted
+  OBLIGATIONS: C07_shared_params C07_inverse_succeeds
 
-  `C07_shared_params_Statement` (every params kind × link × update_buffers) is REFUTED by the code
-  as it stands (F-07: `inverse(link=True)` / `.inv` raise TypeError when params is an
-  `nn.Parameter`, the default); `C07_shared_params_partial` proves it for every other combination.
+  History: on the code before the repairs 3110eb9 / 20bab42 the clause was refuted (F-07:
+  `inverse(link=True)` / `.inv` raised TypeError for `nn.Parameter` params); the model follows the
+  repaired code and the clause is now proved in full.
 -/
 import Deepali.Proofs.TransformStateShare
 
@@ -28,45 +28,40 @@ def SharedParamsHolds (w : World) (cls : Cls) (k : Kind) (v g : Nat) (link ub : 
 
 /-- full clause: after ANY sequence (unbounded) of in-place parameter edits on either transform,
     evaluations, and — when linked (I-2) — `data_` replacement on the forward, forward and inverse
-    read the same parameter version; for every invertible class, params kind, `link`,
-    `update_buffers`, from every well-formed world. -/
-def C07_shared_params_Statement : Prop :=
-  ∀ (w : World), WF w → ∀ (cls : Cls), cls.invertible = true → ∀ (k : Kind) (v g : Nat) (link ub : Bool)
-    (edits : List Edit), (∀ e ∈ edits, e.allowed link = true) → SharedParamsHolds w cls k v g link ub edits
-
-/-- proved part: every combination except (params = `nn.Parameter`, `link = True`). -/
-theorem C07_shared_params_partial (w : World) (hw : WF w) (cls : Cls) (hc : cls.invertible = true)
-    (k : Kind) (v g : Nat) (link ub : Bool) (hF07 : ¬ (k = .param ∧ link = true))
+    read the same parameter version; for every invertible class, EVERY params kind (none,
+    `nn.Parameter`, buffer, function, module), `link`, `update_buffers`, from every well-formed world. -/
+theorem C07_shared_params (w : World) (hw : WF w) (cls : Cls) (hc : cls.invertible = true)
+    (k : Kind) (v g : Nat) (link ub : Bool)
     (edits : List Edit) (ha : ∀ e ∈ edits, e.allowed link = true) :
     SharedParamsHolds w cls k v g link ub edits := by
-  obtain ⟨w0, oF, hmk, hw0, hn0, hoF, hcls, hnl, hkey⟩ := mk_post hw (invertible_not_composite hc) k v g
+  obtain ⟨w0, oF, hmk, hw0, hn0, hoF, hcls, hnl, _⟩ := mk_post hw (invertible_not_composite hc) k v g
   have hstep0 : (step w (.mk cls k v g)).1 = w0 := by rw [hmk]
   obtain ⟨w1, hinv, hsh⟩ := inverse_post hw0 hoF (by rw [hn0]; exact Nat.ne_of_lt (Nat.lt_succ_self _))
-    (by rw [hcls]; exact hc) hnl link ub (fun hl => hkey (fun hk => hF07 ⟨hk, hl⟩))
+    (by rw [hcls]; exact hc) hnl link ub
   refine ⟨w1, w0.nObj, by rw [hstep0]; exact hinv, ?_⟩
   exact (hsh.run edits ha).agree
 
-/-- the full clause fails on the code as it stands (F-07): with the default `nn.Parameter`
-    params, `inverse(link=True)` raises TypeError (`link_` assigns a Module to a name registered in
-    the shared `_parameters` container), so there is no inverse to agree with. -/
-theorem C07_shared_params_refuted : ¬ C07_shared_params_Statement := by
-  intro h
-  obtain ⟨w1, i, hinv, _⟩ := h World.empty WF_empty (.svf true) rfl .param 0 0 true true [] (fun _ he => by cases he)
-  have h1 := congrArg Prod.snd hinv
-  have h2 : (step (step World.empty (.mk (.svf true) .param 0 0)).1 (.inverse World.empty.nObj true true)).2
-      = .err .type := by decide
-  rw [h2] at h1
-  cases h1
+/-- in particular `inverse(link, update_buffers)` / `.inv` of a freshly constructed invertible
+    transform never raises (the former F-07), whatever its params kind. -/
+theorem C07_inverse_succeeds (w : World) (hw : WF w) (cls : Cls) (hc : cls.invertible = true)
+    (k : Kind) (v g : Nat) (link ub : Bool) :
+    ∃ w1 i, step (step w (.mk cls k v g)).1 (.inverse w.nObj link ub) = (w1, .new i) := by
+  obtain ⟨w1, i, h, _⟩ := C07_shared_params w hw cls hc k v g link ub [] (fun _ he => by cases he)
+  exact ⟨w1, i, h⟩
+
+/-- non-vacuity for the default kind (`nn.Parameter`) with `link = True`: in-place edits on the
+    forward and a `data_` replacement are both seen by the linked inverse. -/
+example : (runOuts World.empty
+    [.mk (.svf true) .param 3 0, .inverse 0 true true, .inplace 0 7, .call 0, .call 1, .data_ 0 8, .call 0, .call 1]).2
+    = [.new 0, .new 1, .ok, .obs [⟨.lit 7, 0, false⟩], .obs [⟨.lit 7, 0, true⟩], .ok,
+       .obs [⟨.lit 8, 0, false⟩], .obs [⟨.lit 8, 0, true⟩]] := by
+  decide
 
 /-- non-vacuity (linked, buffer-held params): data replaced on the forward, edited in place, the
     inverse then reads version 9 with the opposite flag. -/
 example : (runOuts World.empty
     [.mk .svffd .buffer 3 0, .inverse 0 true true, .data_ 0 8, .inplace 0 9, .call 0, .call 1]).2
     = [.new 0, .new 1, .ok, .ok, .obs [⟨.lit 9, 0, false⟩], .obs [⟨.lit 9, 0, true⟩]] := by
-  decide
-
-/-- the F-07 witness as the model computes it. -/
-example : (runOuts World.empty [.mk (.svf true) .param 0 0, .inverse 0 true true]).2 = [.new 0, .err .type] := by
   decide
 
 /-- I-10 (modelled, not a violation): a linked inverse called BEFORE the forward still uses the
